@@ -234,6 +234,8 @@ type emitter struct {
 	nplan   int // number of base chunks of the plan
 	damage  func(frame []byte, st Step) [][]byte
 	emitted int
+	opn     int // OPN chunks seen in the stream's direction since arming
+	opnDone int // "renew" steps consumed
 }
 
 // onFrame is the Tap: forward everything until armed; then treat frames of the direction
@@ -241,26 +243,42 @@ type emitter struct {
 func (e *emitter) onFrame(f chanpair.Frame) [][]byte {
 	e.mu.Lock()
 	defer e.mu.Unlock()
-	if !e.armed || f.Dir != e.dir || len(e.base) >= e.nplan || f.Type() != "MSG" {
-		return chanpair.Pass(f) // handshake, renewal (OPN), fence
+	if !e.armed || f.Dir != e.dir {
+		return chanpair.Pass(f)
 	}
-	e.base = append(e.base, append([]byte(nil), f.Data...))
-	k := len(e.base)
 	var out [][]byte
+	switch {
+	case f.Type() == "OPN":
+		// the OPN chunk of a renewal inside the behaviour: forwarded, then the steps behind "renew" are due
+		e.opn++
+		out = append(out, f.Data)
+	case f.Type() != "MSG" || len(e.base) >= e.nplan:
+		return chanpair.Pass(f) // fence and everything after the plan
+	default:
+		e.base = append(e.base, append([]byte(nil), f.Data...))
+	}
+	k := len(e.base)
+loop:
 	for e.next < len(e.steps) && e.steps[e.next].ID <= k {
 		st := e.steps[e.next]
-		e.next++
 		switch st.In {
-		case "drop", "hold", "renew":
-			continue
+		case "renew":
+			if e.opnDone >= e.opn {
+				break loop // the renewal has not happened yet: later steps wait for its OPN chunk
+			}
+			e.opnDone++
+		case "drop", "hold":
 		case "inject":
 			out = append(out, e.damage(nil, st)...)
+			e.emitted++
 		case "damage":
 			out = append(out, e.damage(append([]byte(nil), e.base[st.ID-1]...), st)...)
+			e.emitted++
 		default: // pass, replay, reorder
 			out = append(out, append([]byte(nil), e.base[st.ID-1]...))
+			e.emitted++
 		}
-		e.emitted++
+		e.next++
 	}
 	return out
 }
@@ -339,7 +357,11 @@ func traceOf(b *Beh, bi *baseInfo, evs []Ev) []any {
 	}
 	tr := []any{map[string]any{"ev": "reset", "mode": b.Mode, "reqs": reqs}}
 	for _, st := range b.Steps {
-		if st.In == "drop" || st.In == "hold" || st.In == "renew" {
+		if st.In == "renew" {
+			tr = append(tr, map[string]any{"ev": "renew", "seq": st.Seq})
+			continue
+		}
+		if st.In == "drop" || st.In == "hold" {
 			continue
 		}
 		c := Chunk{Kind: "X"}
@@ -495,7 +517,11 @@ func runBehReal(b *Beh, damage func(g *rig) func([]byte, Step) [][]byte) runResu
 	fd := dig(fp)
 	fwait := 15 * time.Second
 	if contractTerm(b) != "" {
-		fwait = 1500 * time.Millisecond // the receiver may have closed or lost framing: no fence expected
+		// the receiver may have closed or lost framing: no fence is expected; wait (generously) for the
+		// events the specification demands up to that point, then a moment for anything beyond
+		wcT, _, _ := expected(b, bi, false)
+		g.r.waitFor(func(evs []Ev) bool { return len(dropOPN(evs[r0:])) >= len(wcT) }, 20*time.Second)
+		fwait = 1500 * time.Millisecond
 	}
 	fenced := g.r.waitFor(func(evs []Ev) bool {
 		for _, e := range evs {
